@@ -4,6 +4,7 @@
 // raw request frames, through
 //
 //	direct      processor.Process(iprot over the frame, oprot over a recording transport), one at a time
+//	            (direct_reset: the recording transport also has a Reset method)
 //	concurrent  N goroutines calling processor.Process, ONE shared output FProtocol over a
 //	            TFramedTransport over a recording transport (the situation writeMu exists for)
 //	simple      a real FSimpleServer on a loopback TCP socket; the frames of one connection are written
@@ -87,8 +88,8 @@ type callRec struct {
 }
 
 type frameObs struct {
-	Replies []string `json:"replies"`          // reply frames (hex, without size prefix), in arrival order
-	Err     int      `json:"err"`              // direct/concurrent: class of the error Process returned
+	Replies []string `json:"replies"` // reply frames (hex, without size prefix), in arrival order
+	Err     int      `json:"err"`     // direct/concurrent: class of the error Process returned
 	ErrText string   `json:"errtext,omitempty"`
 	Written string   `json:"written,omitempty"` // direct: every byte written to the output transport
 	Flushes int      `json:"flushes"`           // direct: number of Flush calls
@@ -297,7 +298,19 @@ type recTransport struct {
 	mu      sync.Mutex
 	buf     bytes.Buffer
 	flushes int
-	writes  [][]byte
+	flushed int // length of buf at the last Flush
+}
+
+// recResetTransport additionally has the Reset method processor.go looks for: it drops what was
+// written since the last Flush.
+type recResetTransport struct {
+	*recTransport
+}
+
+func (r recResetTransport) Reset() {
+	r.mu.Lock()
+	r.buf.Truncate(r.flushed)
+	r.mu.Unlock()
 }
 
 func (r *recTransport) Open() error  { return nil }
@@ -310,13 +323,13 @@ func (r *recTransport) RemainingBytes() uint64 { return 0 }
 func (r *recTransport) Write(p []byte) (int, error) {
 	r.mu.Lock()
 	r.buf.Write(p)
-	r.writes = append(r.writes, append([]byte{}, p...))
 	r.mu.Unlock()
 	return len(p), nil
 }
 func (r *recTransport) Flush(ctx context.Context) error {
 	r.mu.Lock()
 	r.flushes++
+	r.flushed = r.buf.Len()
 	r.mu.Unlock()
 	return nil
 }
@@ -369,7 +382,9 @@ func run(reg *labdriver.Registry, raw json.RawMessage) interface{} {
 	extra := labdriver.Resp{}
 	switch rq.Mode {
 	case "direct":
-		runDirect(proc, pf, frames, obs)
+		runDirect(proc, pf, frames, obs, false)
+	case "direct_reset":
+		runDirect(proc, pf, frames, obs, true)
 	case "concurrent":
 		runConcurrent(proc, pf, frames, obs, rq.Workers, extra)
 	case "simple":
@@ -409,10 +424,14 @@ func processOne(proc frugal.FProcessor, pf *frugal.FProtocolFactory, frame []byt
 	return 0, ""
 }
 
-func runDirect(proc frugal.FProcessor, pf *frugal.FProtocolFactory, frames [][]byte, obs []frameObs) {
+func runDirect(proc frugal.FProcessor, pf *frugal.FProtocolFactory, frames [][]byte, obs []frameObs, withReset bool) {
 	for i, f := range frames {
 		rec := &recTransport{}
-		oprot := pf.GetProtocol(rec)
+		var tr thrift.TTransport = rec
+		if withReset {
+			tr = recResetTransport{rec}
+		}
+		oprot := pf.GetProtocol(tr)
 		obs[i].Err, obs[i].ErrText = processOne(proc, pf, f, oprot)
 		obs[i].Written = hex.EncodeToString(rec.buf.Bytes())
 		obs[i].Flushes = rec.flushes
